@@ -177,7 +177,10 @@ def check_package(ctx, case, stratum="package"):
     mods = [Interp().run(p) for p in case["modules"]]
     exts = [build_extension(e) for e in case["extensions"]]
     pkg = Package(mods, exts)
-    doc = json.loads(pkg._to_serial().model_dump_json())
+    doc = json.loads(pkg.to_json())   # the public entry point ...
+    if doc != json.loads(pkg._to_serial().model_dump_json()):   # ... writes the serial model unchanged
+        ctx.disc(None, "package-to_json-differs", "Package.to_json", "the serial model's JSON", "differs",
+                 stratum=stratum, case=case)
     ctx.count("monitor:schema-package")
     for e in schema_errors("Package", doc):
         ctx.disc(None, "schema-violation[package]", e["path"], "valid under the published strict schema",
